@@ -949,7 +949,7 @@ func (r *nfRun) rawServer(n *nfNode, rec bool) {
 				}
 				from, ok := byIdent[string(h.Identity)]
 				if !ok {
-					from = -1
+					return // a stray connection (a sender of a finished scenario re-dialling a re-used port): not part of this run
 				}
 				for {
 					ty, topic, data, err := nxReadFrame(s)
